@@ -242,7 +242,7 @@ Proof.
           |destruct (add_result s false) as [s' [x|]]; [discriminate|apply IH]
           |apply IH
           |exact H2]. }
-      destruct v; [exact Hbody|exact Hbody|discriminate].
+      destruct v; [exact Hbody|exact Hbody|discriminate|exact Hbody].
     + destruct (0 <? k); discriminate.
 Qed.
 
@@ -310,7 +310,7 @@ Proof.
 Qed.
 
 Ltac nonbool_value v Hv :=
-  destruct v as [z|bs|bb]; [| |exfalso; apply (Hv bb); reflexivity].
+  destruct v as [z|bs|bb|fl]; [| |exfalso; apply (Hv bb); reflexivity|].
 
 Lemma list_loop_refines_num l0 lM :
   Forall2 irel l0 lM ->
